@@ -247,6 +247,10 @@ class Exec:
         quantified problems); ``deep`` adds them back with a larger budget.  Keeping an infeasible
         path is always sound: its obligations are discharged under the full path condition."""
         self.n_feas += 1
+        from . import lia
+
+        if lia.infeasible(list(bm.AXIOMS) + list(pc)):
+            return False
         s = z3.Solver()
         budget = self.feas_timeout_ms * (2 if deep else 1)
         s.set("timeout", budget * 3)
@@ -257,7 +261,11 @@ class Exec:
             s.add(*bm.AXIOMS)
             s.add(*pc)
         else:
-            s.add(*[p for p in pc if not _has_quantifier(p)])
+            # tracked assertions: switches off z3's equation-elimination pre-processing, which is what the
+            # string obligations of the scanners get lost in (same problem, other strategy)
+            s.set(unsat_core=True)
+            for i, p in enumerate([p for p in list(bm.AXIOMS) + list(pc) if not _has_quantifier(p)]):
+                s.assert_and_track(p, f"trk!{i}")
         r = hard_check(s, budget * 3 / 1000.0)
         if deep and r == z3.unknown:
             r = cvc5_check(s, 4.0)
